@@ -75,6 +75,9 @@ func main() {
 				break
 			}
 		}
+		if l.RetErr != nil && strings.HasPrefix(l.RetErr.Error(), "panic:") {
+			must(enc.Encode(map[string]any{"k": "panic", "what": l.RetErr.Error()}))
+		}
 		l.Close()
 		nh++
 	}
